@@ -137,6 +137,20 @@ pub fn generate(g: &mut Gen, thorough: bool) {
         }
         case(g, "default", def, "I", "01", "23", &inv, &icl, "aspects-inv", true);
     }
+    // the inverse geodesic problem with a NaN in one element while the other pair coincides (same latitude, or same
+    // longitude, at both ends): no answer, not "the points coincide"
+    for ellps in ["GRS80", "intl", "sphere"] {
+        let nan = f64::NAN;
+        let pts = vec![
+            [55.0, nan, 55.0, 12.0], [55.0, 12.0, 55.0, nan], [nan, 12.0, 56.0, 12.0], [55.0, 12.0, nan, 12.0], [0.0, nan, 0.0, 0.0], [nan, 0.0, 0.0, 0.0],
+            [55.0, 12.0, 56.0, 13.0], [nan, nan, 1.0, 2.0], [1.0, 2.0, nan, nan],
+            // (clean lines along a parallel and along a meridian: the oracle puts NaN into each of their elements)
+            [55.0, 12.0, 55.0, 13.0], [55.0, 12.0, 56.0, 12.0], [0.0, 0.0, 0.0, 1.0],
+        ];
+        case(g, "default", &format!("geodesic ellps={ellps}"), "I", "0123", "", &pts, "eeeeeeieeiii", "geodesic-inverse-nan-with-coinciding-elements", true);
+        let fw = vec![[55.0, 12.0, nan, 1000.0], [55.0, 12.0, 45.0, nan], [nan, 12.0, 0.0, 0.0], [55.0, nan, 0.0, 0.0], [55.0, 12.0, 45.0, 1000.0]];
+        case(g, "default", &format!("geodesic ellps={ellps}"), "F", "0123", "", &fw, "eeeei", "geodesic-forward-nan", true);
+    }
     // beyond the disc of laea, in the polar aspects as in the others: NaN, not counted
     for (def, x_0, y_0) in [("laea lat_0=90 lon_0=10 x_0=2000000 y_0=2000000", 2.0e6, 2.0e6), ("laea lat_0=-90 x_0=500 y_0=-500 ellps=intl", 500.0, -500.0), ("laea lat_0=90", 0.0, 0.0), ("laea lat_0=52 lon_0=10", 0.0, 0.0), ("laea lat_0=0 lon_0=-70", 0.0, 0.0)] {
         let inv = vec![[x_0 + 1.0e6, y_0 - 2.0e6, 3.0, 2001.0], [x_0 + 2.0e7, y_0, 7.0, 2001.0], [x_0, y_0 - 1.5e7, 0.0, 0.0], [x_0 + 1.3e7, y_0 + 1.3e7, 0.0, 0.0], [x_0 - 5.0e5, y_0 + 1.0e6, 0.0, 0.0], [x_0 - 1.0e9, y_0, 0.0, 0.0]];
